@@ -38,3 +38,12 @@ Proof.
   { induction ops0 as [|o r IH]; intros w Hw; cbn [xrun fold_left]; [exact Hw|]. apply IH. now apply xstep_fresh. }
   apply H. apply fresh_empty.
 Qed.
+
+(** C18: the kernel step leaves a reverted payment as it is *)
+Lemma kernel_confirm_keeps_reverted w parent missing t :
+  In t (w_log w) -> t_type t = TReverted -> In t (w_log (kernel_confirm w parent missing)).
+Proof.
+  intros Hin Hty. unfold kernel_confirm. cbn [w_log with_log].
+  apply in_map_iff. exists t. split; [|exact Hin]. rewrite Hty. cbn [ttype_eqb negb].
+  rewrite andb_false_r. reflexivity.
+Qed.
